@@ -365,12 +365,29 @@ func sSl(sort, s, a, b string) string {
 	return app(seqFn(sort, "sl"), s, a, b)
 }
 func sApp(sort, a, b string) string {
+	if b == sEmpty(sort) {
+		return a
+	}
+	if a == sEmpty(sort) {
+		return b
+	}
 	// append(s, v): s ++ [v] is written build(s, v), whose length and elements have direct axioms
 	pre := "(" + seqFn(sort, "build") + " " + sEmpty(sort) + " "
 	if strings.HasPrefix(b, pre) && strings.HasSuffix(b, ")") {
 		v := b[len(pre) : len(b)-1]
 		if balanced(v) {
 			return sBuild(sort, a, v)
+		}
+	}
+	// the one-element literal as the compiler builds it: a fresh array of length 1, element 0 stored
+	pre2 := "(" + seqFn(sort, "upd") + " (" + seqFn(sort, "rep") + " 1 "
+	if strings.HasPrefix(b, pre2) && strings.HasSuffix(b, ")") {
+		rest := b[len(pre2):] // <default>) 0 <v>)
+		if i := strings.Index(rest, ") 0 "); i >= 0 && balanced(rest[:i]) {
+			v := rest[i+4 : len(rest)-1]
+			if balanced(v) {
+				return sBuild(sort, a, v)
+			}
 		}
 	}
 	return app(seqFn(sort, "app"), a, b)
